@@ -167,6 +167,14 @@ func Rec(kind string, pattern int) ref.SFRecord {
 			r.Vals = []uint64{0, 0xffffffff}
 		}
 		return r
+	case "vendor-std-format": // enterprise != 0, format number of a standard record: must be skipped by length
+		r.Kind = "unknown"
+		r.Tag = 4413<<12 | []uint32{1, 1001, 1002, 2, 5}[pattern%5]
+		r.Body = make([]byte, 8+4*(pattern%3))
+		for i := range r.Body {
+			r.Body[i] = byte(0xd0 + i)
+		}
+		return r
 	case "unknown":
 		r.Tag = 2000 + uint32(pattern%3)
 		r.Body = make([]byte, 4*(pattern%4))
